@@ -2,6 +2,7 @@
     A = V dA/dV + sum_i N_i dA/dN_i  — in the form: the derivative program of [AD.v], seeded with the
     direction (0, V, N, 0...), returns the value of the program itself. *)
 From Coq Require Import Reals List ZArith Lia Lra.
+From Coquelicot Require Import Coquelicot.
 From Interval Require Import Real.Xreal Real.Xreal_derive Eval.Prog Eval.Tree Eval.Eval.
 From FeosVerif Require Import ProgSem Homog AD.
 Import ListNotations.
@@ -72,6 +73,57 @@ Proof.
   { intros eps Heps. exists (mkposreal 1 Rlt_0_1). intros h Hh _.
     replace (((1 + (0 + h)) * y - (1 + 0) * y) / h - y) with 0 by (field; exact Hh).
     now rewrite Rabs_R0. }
+  pose proof (derivable_pt_lim_local _ _ 0 dv 1 Rlt_0_1 HF HD) as HD'.
+  exact (uniqueness_limite _ _ _ _ HD' HG).
+Qed.
+
+(** ** Euler's relation for any degree: V df/dV + sum_i N_i df/dN_i = j f.
+    Applied to the derivative programs [tan_outs P] (pressure and chemical potentials have degree 0, the entropy degree 1)
+    it yields the Gibbs-Duhem type identities  V dp/dV + sum_i N_i dp/dN_i = 0  and  V dmu_k/dV + sum_i N_i dmu_k/dN_i = 0. *)
+Lemma IZR_pos_nat p : IZR (Z.pos p) = INR (Pos.to_nat p).
+Proof. now rewrite INR_IZR_INZ, positive_nat_Z. Qed.
+
+Lemma powerRZ_line_derive j : derivable_pt_lim (fun t => powerRZ (1 + t) j) 0 (IZR j).
+Proof.
+  apply is_derive_Reals.
+  destruct j as [|p|p]; cbn [powerRZ].
+  - auto_derive; [exact I|reflexivity].
+  - auto_derive; [exact I|]. rewrite Rplus_0_r, pow1, (IZR_pos_nat p). ring.
+  - auto_derive.
+    + rewrite Rplus_0_r, pow1. repeat split; lra.
+    + rewrite Rplus_0_r, !pow1. change (IZR (Z.neg p)) with (- IZR (Z.pos p)). rewrite (IZR_pos_nat p). field.
+Qed.
+
+Theorem euler_relation_deg P ncomp cz nouts (j : Z) T V N consts k y dv :
+  outputs_deg P ncomp cz nouts j = true ->
+  length N = ncomp -> consts_ok cz consts -> (k < nouts)%nat ->
+  let n := length (thermo_env T V N consts) in
+  wscoped P n = true -> (k < length P + n)%nat ->
+  out_ext P (thermo_env T V N consts) k = Xreal y ->
+  nth 0 (eval_ext (tan_outs P n [k]) (map Xreal (thermo_env T V N consts ++ euler_dir V N consts))) Xnan = Xreal dv ->
+  dv = IZR j * y.
+Proof.
+  intros Hdeg HN Hc Hk n Hs Hkn Hy Hd.
+  set (a := thermo_env T V N consts) in *. set (e := euler_dir V N consts) in *.
+  assert (Hla : length a = n) by reflexivity.
+  assert (Hle : length e = n).
+  { unfold n, a, e, thermo_env, euler_dir. cbn. now rewrite !app_length, map_length. }
+  assert (Hlp : line_pt a e 0 = a).
+  { unfold a, e. rewrite line_pt_euler. replace (1 + 0) with 1 by ring. rewrite Rmult_1_l.
+    f_equal. rewrite <- (map_id N) at 2. apply map_ext. intros x. ring. }
+  pose proof (tan_line_real P n [k] a e 0 0%nat dv Hla Hle Hs) as HD.
+  cbn [length nth Nat.sub] in HD. rewrite Hlp in HD.
+  specialize (HD ltac:(intros i [<-|[]]; exact Hkn) ltac:(lia) Hd y).
+  assert (HF : forall t, Rabs (t - 0) < 1 ->
+     match nth k (eval_ext P (map Xreal (line_pt a e t))) Xnan with Xreal z => z | Xnan => y end = powerRZ (1 + t) j * y).
+  { intros t Ht. rewrite Rminus_0_r in Ht. apply Rabs_def2 in Ht.
+    unfold a, e. rewrite line_pt_euler.
+    pose proof (program_homogeneous P ncomp cz nouts j Hdeg (1 + t) T V N consts k ltac:(lra) HN Hc Hk) as HH.
+    unfold out_ext in HH, Hy. unfold a in Hy. rewrite Hy in HH. now rewrite HH. }
+  assert (HG : derivable_pt_lim (fun t => powerRZ (1 + t) j * y) 0 (IZR j * y)).
+  { replace (IZR j * y) with (IZR j * y + powerRZ (1 + 0) j * 0).
+    - apply (derivable_pt_lim_mult (fun t => powerRZ (1 + t) j) (fun _ => y)); [apply powerRZ_line_derive|apply derivable_pt_lim_const].
+    - ring. }
   pose proof (derivable_pt_lim_local _ _ 0 dv 1 Rlt_0_1 HF HD) as HD'.
   exact (uniqueness_limite _ _ _ _ HD' HG).
 Qed.
